@@ -105,16 +105,25 @@ def fork_call(fn, arg, limit):
 
 def execute_run(prop, seed, tier, idx, detail=False):
     """One seeded run.  Returns a result dict (small unless detail)."""
-    rng = rng_for(seed, prop.ID, tier, idx)
-    plan = prop.plan(rng, tier, idx)
-    w = run(Driver(rng, plan), detail=detail, **prop.WORLD_KW)
-    return finish_run(prop, w, idx, detail)
+    prop.begin_run()
+    try:
+        rng = rng_for(seed, prop.ID, tier, idx)
+        plan = prop.plan(rng, tier, idx)
+        drv = plan if hasattr(plan, "next_op") else Driver(rng, plan)
+        w = run(drv, detail=detail, **prop.WORLD_KW)
+        return finish_run(prop, w, idx, detail)
+    finally:
+        prop.end_run()
 
 
 def execute_ops(prop, ops, detail=False):
     """Replay: execute a recorded op list verbatim."""
-    w = run(ListDriver(ops), detail=detail, **prop.WORLD_KW)
-    return finish_run(prop, w, -1, detail)
+    prop.begin_run()
+    try:
+        w = run(ListDriver(ops), detail=detail, **prop.WORLD_KW)
+        return finish_run(prop, w, -1, detail)
+    finally:
+        prop.end_run()
 
 
 def finish_run(prop, w, idx, detail):
